@@ -74,6 +74,9 @@ def build(scen, pad):
             acts += [SetSwitchAction(_switch=s, _switch_action=SwitchAction.SET) for s in sws]
             # existing switches by number, switch 0 included (numbers are 0-based)
             acts += [SetSwitchAction(_switch=RichSwitch(_index=k), _switch_action=SwitchAction.CLEAR) for k in CARRIED_SWITCHES]
+            # switch 200 is unnamed in the stored table and referred to by number above; a trigger also NAMES it:
+            # the name is saved, under every hash seed
+            acts += [SetSwitchAction(_switch=RichSwitch(RichString("c14 vault door"), 200), _switch_action=SwitchAction.RANDOMIZE)]
             if scen == 101:
                 # contradictory content of another kind: two different locations pinned to one free slot number
                 # (a copy-paste slip); raise or not, the outcome is the same under every hash seed
